@@ -102,6 +102,10 @@ func isNoop(o OptSpec, c Case, b *built) bool {
 		for _, m := range imgs {
 			for _, l := range m.Layers {
 				if l.Tar && !l.Foreign && l.MT != mtInToto {
+					// a tar without entries is dropped by every file-level step (not a no-op)
+					if len(l.Files) == 0 && o.Kind != "layer-compress" {
+						return false
+					}
 					if !f(l) {
 						return false
 					}
@@ -129,7 +133,7 @@ func isNoop(o OptSpec, c Case, b *built) bool {
 		}
 		switch {
 		case all:
-			return mapCond(b.TopAnnots, name, o.Value) && allImgs(func(m imgModel) bool { return mapCond(m.Annots, name, o.Value) })
+			return mapCond(b.TopAnnots, name, o.Value) && (!b.Nested || mapCond(b.InnerAnnots, name, o.Value)) && allImgs(func(m imgModel) bool { return mapCond(m.Annots, name, o.Value) })
 		case len(plats) > 0:
 			return noPlatformMatches(plats) || allImgs(func(m imgModel) bool { return mapCond(m.Annots, name, o.Value) })
 		}
@@ -303,6 +307,9 @@ func isNoop(o OptSpec, c Case, b *built) bool {
 		if !b.IsIndex {
 			return true
 		}
+		if b.Nested {
+			return false // the inner index' annotations are promoted to the outer one: not judged
+		}
 		var common map[string]string
 		for i, m := range imgs {
 			if i == 0 || common == nil {
@@ -328,9 +335,10 @@ func isNoop(o OptSpec, c Case, b *built) bool {
 		}
 		return true
 	case "annotation-base":
-		name := hostA + "/" + repoBase + ":cur"
+		bh, br := baseLoc(c)
+		name := bh + "/" + br + ":cur"
 		cond := func(a map[string]string) bool { return a[annoBaseName] == name && a[annoBaseDig] == o.Value }
-		return cond(b.TopAnnots) && allImgs(func(m imgModel) bool { return cond(m.Annots) })
+		return cond(b.TopAnnots) && (!b.Nested || cond(b.InnerAnnots)) && allImgs(func(m imgModel) bool { return cond(m.Annots) })
 	case "data":
 		if o.N < 0 {
 			return true
@@ -341,11 +349,13 @@ func isNoop(o OptSpec, c Case, b *built) bool {
 			}
 			return size > o.N
 		}
-		for i, s := range b.ChildSize {
-			_ = i
+		for _, s := range b.ChildSize {
 			if !ok(s, b.ChildData) {
 				return false
 			}
+		}
+		if b.Nested && !ok(b.InnerSize, false) {
+			return false
 		}
 		return allImgs(func(m imgModel) bool {
 			if !ok(m.ConfigSize, m.ConfigData) {
